@@ -350,7 +350,9 @@ def r03_5(ctx: Ctx):
                 a = e.d['args']
                 kw = e.d['kwargs']
                 num = a[0] if a else kw.get('number')
-                ok1 = num is None or (isinstance(num, RF) and num.const_value() == 1)
+                dflt = drv.defaults().get(drv.param_names[1]) if len(drv.param_names) > 1 else None
+                dflt_one = isinstance(dflt, ast.Constant) and dflt.value == 1
+                ok1 = (num is None and dflt_one) or (isinstance(num, RF) and num.const_value() == 1)
                 ctx.check(ok1, rid, sd.short, sd.loc(e.node), 'each trip performs a single iteration',
                           f'the solve loop performs {C.fmt(num)} iterations per stop test: the search can overshoot '
                           f'the stop criterion', key=f'{rid}::{sd.short}::single-step')
